@@ -3,6 +3,10 @@
 Everything here *constructs* valid versions ([epoch:]upstream[-revision]; a hyphen in the upstream
 part only when a revision follows, a colon only when an epoch is present, no empty part) -- no
 filtering.  Pools are plain deterministic lists; strategies are Hypothesis strategies.
+
+The last two sections are used by C03 only: versions with *long digit runs* (wider than any
+machine word, with and without zero padding) and *assignment attempts* on a live version object
+(values over the version alphabet, most of them refused only by the colon / hyphen rules).
 """
 import itertools
 
@@ -356,3 +360,225 @@ _NEAR_TRIPLE = _near_triple()
 
 def near_triple():
     return _NEAR_TRIPLE
+
+
+# ------------------------------------------------------------------------------------------
+# long digit runs (C03): numbers wider than 9 / 18 / 19 / 20 characters, zero padded or not
+
+P32, P53, P63, P64 = 2 ** 32, 2 ** 53, 2 ** 63, 2 ** 64
+W19 = "1234567890123456789"
+W40 = "1234567890" * 4
+W120 = "9876543210" * 12
+
+# values are written without leading zeros; the padding is a separate dimension
+LONG_SMALL = ["5", "7", "12", "13", "34", "345"]
+LONG_SMALL_PADS = [0, 1, 9, 17, 18, 19, 20, 40]
+LONG_EDGE = [str(n) for n in (P32 // 2 - 1, P32 // 2, P32 - 1, P32, P32 + 1, P32 + 12, P53, P53 + 1,
+                              P63 - 1, P63, P64 - 1, P64, P64 + 1, P64 + 12)]
+LONG_WIDE = ["9" * 20, "1" + "0" * 20,                              # text order opposite to numeric order
+             W19, W19[:-1] + "0", "2" + W19[1:],                    # last / first digit differs
+             W40, W40[:-1] + "1", W40[:24] + "7" + W40[25:], W40[:-1],   # differs beyond 18/19/20 digits
+             W120, W120[:-1] + "3", W120[:60] + "0" + W120[61:]]
+LONG_PADS = [0, 1, 20]
+ZERO_RUNS = ["0" * n for n in (1, 2, 18, 19, 20, 41)]
+
+# the numbers that are also placed in other positions of a version
+LONG_CORE = ["5", "0" * 20 + "7", "12", "0" * 20 + "12", "0" * 20 + "13", "34", "0" * 17 + "34",
+             W19, "0" + W19, W19[:-1] + "0", str(P64 + 12), "0" * 20]
+LONG_TAILS = ["", "-1", "-2", "+b1", ".5", "~"]             # what follows the run decides on a tie
+LONG_PLACES = ["%s", "a%s", "1.0-%s", "1.0-1.%s", "1:%s"]   # bare, after a letter, in the revision, after an epoch
+LONG_EPOCH_PLACES = ["%s:1", "%s:1-1"]                      # the epoch itself (never handed to the dpkg binary)
+
+
+def long_numbers():
+    out = [("0" * z) + v for v in LONG_SMALL for z in LONG_SMALL_PADS]
+    out += [("0" * z) + v for v in LONG_EDGE + LONG_WIDE for z in LONG_PADS]
+    return _dedupe(out + ZERO_RUNS)
+
+
+def long_run_groups():
+    """Lists of versions; ALL ordered pairs *within* each list are enumerated by C03."""
+    return [
+        ["1." + n for n in long_numbers()] + ["1"],
+        ["1." + n + t for n in LONG_CORE for t in LONG_TAILS],
+        [p % n for n in LONG_CORE for p in LONG_PLACES],
+        [p % n for n in LONG_CORE for p in LONG_EPOCH_PLACES],
+    ]
+
+
+def long_run_pool():
+    return _dedupe([v for g in long_run_groups() for v in g])
+
+
+_NONZERO = st.sampled_from("123456789")
+_WIDTHS = st.sampled_from([1, 2, 3, 9, 10, 11, 15, 16, 17, 18, 19, 20, 21, 22, 25, 39, 40, 41, 100])
+_PADS = st.sampled_from([0, 0, 0, 1, 2, 3, 8, 9, 10, 16, 17, 18, 19, 20, 21, 30, 45])
+_VARIANT = st.tuples(st.sampled_from(["same", "same", "digit", "digit", "digit", "last", "first", "drop", "grow",
+                                      "plus1", "minus1", "wrap32", "wrap64"]),
+                     st.integers(0, 120), st.integers(1, 9))
+_LONG_FRAME = st.sampled_from(
+    [("u", p, t) for p in ["", "1.", "1.", "1.", "a", "1.0+", "2~", "0.0."] for t in ["", "", ".5", "+b1", "~", "a", ".0"]]
+    + [("r", p, t) for p in ["", "", "1.", "b"] for t in ["", "", "~", "+b1", ".1"]]
+    + [("e", "", "")] * 4)
+_LONG_REV = st.sampled_from([None, None, "1", "1", "2", "0", "~"])
+
+
+def _variant(value, op, pos, d):
+    """Another number close to ``value`` (a digit string without leading zeros)."""
+    if op == "digit" or op == "last" or op == "first":
+        i = {"digit": pos % len(value), "last": len(value) - 1, "first": 0}[op]
+        c = DIGITS[(DIGITS.index(value[i]) + d) % 10]
+        if i == 0 and c == "0":
+            c = "1" if value[0] != "1" else "2"
+        return value[:i] + c + value[i + 1:]
+    if op == "drop":
+        return value[:-1] or "0"
+    if op == "grow":
+        return value + DIGITS[d]
+    if op == "plus1":
+        return str(int(value) + 1)
+    if op == "minus1":
+        return str(max(0, int(value) - 1))
+    if op == "wrap32":
+        return str(int(value) + d * P32)
+    if op == "wrap64":
+        return str(int(value) + d * P64)
+    return value
+
+
+def _frame(frame, number, rev):
+    where, prefix, tail = frame
+    if where == "e":
+        return render(number, "1", rev)
+    if where == "r":
+        return render(None, "1.0", prefix + number + tail)
+    return render(None, prefix + number + tail, rev)
+
+
+@st.composite
+def _long_run_case(draw):
+    """A pair / triple whose versions carry the same frame around nearby numbers of independent
+    zero padding; the tail after the number and the revision may differ so that a tie in the
+    number is decided by what follows."""
+    w = draw(_WIDTHS)
+    value = draw(_NONZERO) + "".join(draw(st.lists(st.sampled_from(DIGITS), min_size=w - 1, max_size=w - 1)))
+    frame = draw(_LONG_FRAME)
+    n = 3 if draw(_ONE_IN_FOUR) == 0 else 2
+    vs = []
+    for k in range(n):
+        v = value if k == 0 else _variant(value, *draw(_VARIANT))
+        f = frame
+        if k and draw(_ONE_IN_FOUR) == 0:
+            f = draw(_LONG_FRAME)
+            f = f if f[0] == frame[0] else frame
+        vs.append(_frame(f, "0" * draw(_PADS) + v, draw(_LONG_REV)))
+    if draw(_BOOL):
+        vs.reverse()
+    if n == 3:
+        return {"kind": "triple", "vs": vs}
+    return {"kind": "pair", "a": vs[0], "b": vs[1]}
+
+
+_LONG_RUN_CASE = _long_run_case()
+
+
+def long_run_case():
+    return _LONG_RUN_CASE
+
+
+# ------------------------------------------------------------------------------------------
+# assignment attempts on a live version object (C03)
+#
+# An attempt is [attribute, value].  The templates build values from the parts of a donor
+# version using only characters of the version alphabet; whether the library accepts or refuses
+# one depends on the object it is tried on (the oracle does not need to know in advance).
+
+EDIT_ATTRS = ["full_version", "epoch", "upstream_version", "debian_revision"]
+
+
+def edit_templates(donor_parts):
+    e, u, r = donor_parts
+    full = render(e, u, r)
+    return [
+        ["full_version", "a" + full],                 # a letter in front of the epoch: colon without numeric epoch
+        ["full_version", full + "-"],                 # nothing after the last hyphen
+        ["full_version", ":" + full],                 # empty epoch
+        ["full_version", full + ":" + (r or "2")],    # colon after the revision
+        ["full_version", u + ":" + full],             # the upstream part where the epoch belongs
+        ["full_version", (e or "1") + ":" + u + "-" + (r or "1") + "-"],
+        ["full_version", full],                       # accepted: the object becomes the donor
+        ["epoch", u],                                 # non-numeric unless the upstream part is a number
+        ["epoch", (e or "") + "x"],
+        ["epoch", (e or "0") + ":"],
+        ["epoch", "-" + (e or "1")],
+        ["debian_revision", (r or "a") + ":" + u],    # colon in the revision
+        ["debian_revision", (r or "1") + "-"],        # hyphen at the end of the revision
+        ["debian_revision", ":"],
+        ["upstream_version", u + "-"],                # refused when the object has no revision
+        ["upstream_version", u + ":"],                # refused when the object has no epoch
+        ["upstream_version", ":" + u],
+        ["upstream_version", "-"],
+        ["debian_revision", r],                       # accepted (None removes the revision if the upstream allows it)
+        ["epoch", e],
+    ]
+
+
+N_EDIT_TEMPLATES = 20
+
+EDIT_STARTS = ["1.0-1", "1:1.0-1", "1.0", "1:1.0", "0:1.0-0", "2.0-1", "1:1.0-2", "1-1-1", "1:1:1-1", "1:1:1",
+               "a1", "1.0~rc1-1~", "01:1.00-01", "0", "1.0-a+b", "12:3.4.5+dfsg-6.7"]
+EDIT_DONORS = ["2.0-1", "1:2.0-1", "2.0", "3:2.0", "1.0-1", "1:1.0-1", "a", "7", "1:3.0-1-1", "1:2:0", "0-0", "0:0",
+               "~", "1:~-~", "1.0+b1", "10"]
+
+
+def edit_cases():
+    """Every start version x every donor, carrying ALL templates as successive attempts on one object
+    (each template also first on a fresh object: the list is rotated with the donor index)."""
+    for a in EDIT_STARTS:
+        for k, b in enumerate(EDIT_DONORS):
+            t = edit_templates(_split_parts(b))
+            for rot in (k % N_EDIT_TEMPLATES, (k + 7) % N_EDIT_TEMPLATES):
+                yield {"kind": "pair", "a": a, "b": b, "edits": t[rot:] + t[:rot]}
+            for one in t:
+                yield {"kind": "pair", "a": a, "b": b, "edits": [one]}
+
+
+def _split_parts(v):
+    e = None
+    i = v.find(":")
+    if i >= 0:
+        e, v = v[:i], v[i + 1:]
+    j = v.rfind("-")
+    if j >= 0:
+        return [e, v[:j], v[j + 1:]]
+    return [e, v, None]
+
+
+_EDIT_ALPHA = st.sampled_from(list("0011aZ.+~") + [":", ":", "-", "-"])
+_FREE_VALUE = st.lists(_EDIT_ALPHA, min_size=0, max_size=6).map("".join)
+_TEMPLATE_IDX = st.integers(0, N_EDIT_TEMPLATES - 1)
+_EDIT_ATTR = st.sampled_from(EDIT_ATTRS)
+
+
+@st.composite
+def _edited_pair(draw):
+    p = draw(_PARTS[False])
+    q = apply_mutations(p, draw(_MUTS_12)) if draw(_ONE_IN_FOUR) else draw(_PARTS[False])
+    donor = draw(_PARTS[False]) if draw(_ONE_IN_FOUR) == 0 else q
+    templates = edit_templates(donor)
+    edits = []
+    for _ in range(1 + draw(_ONE_IN_FOUR)):
+        if draw(_ONE_IN_FOUR) == 0:
+            edits.append([draw(_EDIT_ATTR), draw(_FREE_VALUE)])
+        else:
+            edits.append(templates[draw(_TEMPLATE_IDX)])
+    return {"kind": "pair", "a": render(*p), "b": render(*q), "edits": edits}
+
+
+_EDITED_PAIR = _edited_pair()
+
+
+def edited_pair():
+    """A near-miss pair plus 1-4 assignment attempts (template values built from a donor version, or
+    free strings over the version alphabet) to be tried on a live Version(a)."""
+    return _EDITED_PAIR
